@@ -7,7 +7,7 @@ d = open(HERE + '/DESIGN.md').read()
 if MARK in d:
     d = d[:d.index(MARK)]
 out = [MARK, '', '## 10. Measured coverage (last committed runs on the repaired tree)', '',
-       'Quick tier from `evidence/*.json` as committed; thorough tier from `thorough_results.json` (the thorough runs are '
+       'All 19 thorough tiers were re-run, and were silent, after the last change to the harness (waves 13-17); `vp check` request 6 (fresh restore, `VERIF_SEED=1`) found nothing needing attention, and the quick tier is silent for seeds 0, 1, 2, 3, 5, 7. Quick tier from `evidence/*.json` as committed; thorough tier from `thorough_results.json` (the thorough runs are '
        'executed with `./check <ID> --tier thorough`; their evidence files are overwritten by the next quick run, so the '
        'numbers are kept in that file).', '',
        '| property | level | quick: executions / distinct non-trivial / states / wall | thorough: executions / states / wall |', '|---|---|---|---|']
